@@ -1,4 +1,653 @@
 (** C05 — proofs about Model/Vary.v. *)
+From Coq Require Import Sorting.Sorted.
 From KV Require Import Bytes RustInt Range CacheControl Cache CacheProofs Fixture RustStd Vary.
 From Coq Require Import ZifyBool ZifyNat ZifyN.
 Open Scope N_scope.
+
+(** ---- 1. the order: [Ord for str], derived [Ord for Header], [Ord for [Header]] ---- *)
+Record cmp_ok {T : Type} (cmp : T -> T -> comparison) : Prop := mk_cmp_ok {
+  c_eq : forall a c, cmp a c = Eq <-> a = c;
+  c_anti : forall a c, cmp c a = CompOpp (cmp a c);
+  c_trans : forall a b c, cmp a b = Lt -> cmp b c = Lt -> cmp a c = Lt }.
+
+Section Lex.
+  Context {T : Type} (cmp : T -> T -> comparison).
+  Fixpoint lexl (a c : list T) : comparison :=
+    match a, c with
+    | [], [] => Eq
+    | [], _ :: _ => Lt
+    | _ :: _, [] => Gt
+    | x :: a', y :: c' => match cmp x y with Eq => lexl a' c' | o => o end
+    end.
+  Hypothesis H : cmp_ok cmp.
+
+  Lemma lexl_eq a c : lexl a c = Eq <-> a = c.
+  Proof.
+    revert c; induction a as [|x a IH]; intros [|y c]; cbn [lexl]; split; intros E;
+      try reflexivity; try discriminate.
+    - destruct (cmp x y) eqn:C; try discriminate. apply (c_eq _ H) in C. apply IH in E. congruence.
+    - inversion E; subst. rewrite (proj2 (c_eq _ H y y) eq_refl). apply IH. reflexivity.
+  Qed.
+  Lemma lexl_anti a c : lexl c a = CompOpp (lexl a c).
+  Proof.
+    revert c; induction a as [|x a IH]; intros [|y c]; cbn [lexl]; try reflexivity.
+    rewrite (c_anti _ H x y). destruct (cmp x y); cbn [CompOpp]; [apply IH | reflexivity | reflexivity].
+  Qed.
+  Lemma lexl_trans a b c : lexl a b = Lt -> lexl b c = Lt -> lexl a c = Lt.
+  Proof.
+    revert b c; induction a as [|x a IH]; intros [|y b] [|z c]; cbn [lexl]; intros H1 H2;
+      try reflexivity; try discriminate.
+    destruct (cmp x y) eqn:Cxy; try discriminate.
+    - apply (c_eq _ H) in Cxy. subst y. destruct (cmp x z) eqn:Cxz.
+      + eapply IH; eassumption.
+      + reflexivity.
+      + discriminate.
+    - destruct (cmp y z) eqn:Cyz.
+      + apply (c_eq _ H) in Cyz. subst z. rewrite Cxy. reflexivity.
+      + rewrite (c_trans _ H _ _ _ Cxy Cyz). reflexivity.
+      + discriminate.
+  Qed.
+  Lemma lexl_ok : cmp_ok lexl.
+  Proof. constructor; [apply lexl_eq | apply lexl_anti | apply lexl_trans]. Qed.
+End Lex.
+
+Lemma ncmp_ok : cmp_ok N.compare.
+Proof.
+  constructor.
+  - intros a c. apply N.compare_eq_iff.
+  - intros a c. apply N.compare_antisym.
+  - intros a b c H1 H2. rewrite N.compare_lt_iff in *. lia.
+Qed.
+
+Lemma bcmp_lexl a c : bcmp a c = lexl N.compare a c.
+Proof. reflexivity. Qed.
+Lemma bcmp_ok : cmp_ok bcmp.
+Proof.
+  pose proof (lexl_ok N.compare ncmp_ok) as [E A T]. constructor; intros; rewrite ?bcmp_lexl in *; eauto.
+Qed.
+
+Lemma cmp_header_ok : cmp_ok cmp_header.
+Proof.
+  destruct bcmp_ok as [E A T]. constructor.
+  - intros [a1 a2] [c1 c2]. unfold cmp_header. cbn [fst snd]. split.
+    + destruct (bcmp a1 c1) eqn:C1; try discriminate. intros C2. apply E in C1, C2. congruence.
+    + intros X; inversion X; subst. rewrite (proj2 (E c1 c1) eq_refl). apply E. reflexivity.
+  - intros [a1 a2] [c1 c2]. unfold cmp_header. cbn [fst snd]. rewrite (A a1 c1).
+    destruct (bcmp a1 c1); cbn [CompOpp]; [apply A | reflexivity | reflexivity].
+  - intros [a1 a2] [b1 b2] [c1 c2]. unfold cmp_header. cbn [fst snd]. intros H1 H2.
+    destruct (bcmp a1 b1) eqn:C1; try discriminate.
+    + apply E in C1. subst b1. destruct (bcmp a1 c1) eqn:C3.
+      * eapply T; eassumption.
+      * reflexivity.
+      * discriminate.
+    + destruct (bcmp b1 c1) eqn:C2.
+      * apply E in C2. subst c1. rewrite C1. reflexivity.
+      * rewrite (T _ _ _ C1 C2). reflexivity.
+      * discriminate.
+Qed.
+
+Lemma cmp_hcoll_lexl a c : cmp_hcoll a c = lexl cmp_header a c.
+Proof. reflexivity. Qed.
+Lemma cmp_hcoll_ok : cmp_ok cmp_hcoll.
+Proof.
+  pose proof (lexl_ok cmp_header cmp_header_ok) as [E A T]. constructor; intros; rewrite ?cmp_hcoll_lexl in *; eauto.
+Qed.
+
+Definition hlt (a c : hcoll) : Prop := cmp_hcoll a c = Lt.
+Lemma hlt_irrefl a : ~ hlt a a.
+Proof. unfold hlt. rewrite (proj2 (c_eq _ cmp_hcoll_ok a a) eq_refl). discriminate. Qed.
+Lemma hlt_trans a b c : hlt a b -> hlt b c -> hlt a c.
+Proof. apply (c_trans _ cmp_hcoll_ok). Qed.
+Lemma hlt_gt a c : hlt a c <-> cmp_hcoll c a = Gt.
+Proof. unfold hlt. rewrite (c_anti _ cmp_hcoll_ok a c). destruct (cmp_hcoll a c); cbn; split; congruence. Qed.
+Lemma hc_eqb_eq a c : hc_eqb a c = true <-> a = c.
+Proof.
+  unfold hc_eqb. rewrite <- (c_eq _ cmp_hcoll_ok). destruct (cmp_hcoll a c); split; congruence.
+Qed.
+Lemma hc_eqb_refl a : hc_eqb a a = true.
+Proof. apply hc_eqb_eq. reflexivity. Qed.
+Lemma hlt_neqb a c : hlt a c -> hc_eqb a c = false.
+Proof. unfold hlt, hc_eqb. intros ->. reflexivity. Qed.
+Lemma hlt_neqb' a c : hlt a c -> hc_eqb c a = false.
+Proof. intros H. apply hlt_gt in H. unfold hc_eqb. rewrite H. reflexivity. Qed.
+
+(** ---- 2. the sorted vector ---- *)
+Section Vec.
+  Context {A : Type}.
+  Notation elt := (A * hcoll)%type.
+
+  (** invariant (1): strictly increasing header lists — in particular no two equal ones *)
+  Definition vsorted (l : list elt) : Prop := StronglySorted (fun p q => hlt (snd p) (snd q)) l.
+
+  Definition vfind (t : hcoll) (l : list elt) : option A :=
+    option_map fst (find (fun p => hc_eqb (snd p) t) l).
+
+  Lemma ss_app (R : elt -> elt -> Prop) l1 l2 :
+    StronglySorted R (l1 ++ l2) <->
+    StronglySorted R l1 /\ StronglySorted R l2 /\ Forall (fun a => Forall (R a) l2) l1.
+  Proof.
+    induction l1 as [|a l1 IH]; cbn [app].
+    - split; [intros H; repeat split; [constructor | exact H | constructor] | intros (_ & H & _); exact H].
+    - split.
+      + intros H. inversion H as [|? ? S F]; subst. apply IH in S as (S1 & S2 & F12).
+        apply Forall_app in F as [F1 F2]. repeat split; try assumption; constructor; assumption.
+      + intros (S1 & S2 & F12). inversion S1 as [|? ? S1' F1]; subst. inversion F12 as [|? ? Fa F12']; subst.
+        constructor; [apply IH; repeat split; assumption | apply Forall_app; split; assumption].
+  Qed.
+
+  Lemma vsorted_nodup_keys (l : list elt) f1 f2 t : vsorted l -> In (f1, t) l -> In (f2, t) l -> f1 = f2.
+  Proof.
+    induction 1 as [|p l S IH F]; intros I1 I2; [contradiction|].
+    rewrite Forall_forall in F.
+    destruct I1 as [-> | I1], I2 as [E2 | I2].
+    - congruence.
+    - exfalso. apply (hlt_irrefl t). exact (F _ I2).
+    - subst p. exfalso. apply (hlt_irrefl t). exact (F _ I1).
+    - auto.
+  Qed.
+
+  (** a sorted vector is partitioned by the comparator of [get] *)
+  Lemma sorted_partition (l : list elt) t : vsorted l ->
+    (exists L p G, l = L ++ p :: G /\ snd p = t /\
+                   Forall (fun q => hlt (snd q) t) L /\ Forall (fun q => hlt t (snd q)) G)
+    \/ (exists L G, l = L ++ G /\ Forall (fun q => hlt (snd q) t) L /\ Forall (fun q => hlt t (snd q)) G).
+  Proof.
+    induction 1 as [|p l S IH F].
+    - right. exists [], []. repeat split; constructor.
+    - destruct (cmp_hcoll (snd p) t) eqn:C.
+      + left. apply (c_eq _ cmp_hcoll_ok) in C. exists [], p, l. repeat split; [exact C | constructor |].
+        subst t. exact F.
+      + destruct IH as [(L & q & G & -> & Eq & FL & FG) | (L & G & -> & FL & FG)].
+        * left. exists (p :: L), q, G. repeat split; try assumption. constructor; assumption.
+        * right. exists (p :: L), G. repeat split; try assumption. constructor; assumption.
+      + right. exists [], (p :: l). repeat split; [constructor|].
+        apply hlt_gt in C. constructor; [exact C|].
+        eapply Forall_impl; [|exact F]. intros q Hq. eapply hlt_trans; eassumption.
+  Qed.
+
+  Lemma Forall_lt_cmp (L : list elt) t :
+    Forall (fun q => hlt (snd q) t) L -> Forall (fun x => cmp_hcoll (snd x) t = Lt) L.
+  Proof. intros H. exact H. Qed.
+  Lemma Forall_gt_cmp (G : list elt) t :
+    Forall (fun q => hlt t (snd q)) G -> Forall (fun x => cmp_hcoll (snd x) t = Gt) G.
+  Proof. intros H. eapply Forall_impl; [|exact H]. intros q Hq. apply hlt_gt. exact Hq. Qed.
+
+  Lemma vfind_skip_lt (L : list elt) t rest :
+    Forall (fun q => hlt (snd q) t) L -> vfind t (L ++ rest) = vfind t rest.
+  Proof.
+    induction 1 as [|q L Hq F IH]; [reflexivity|]. unfold vfind in *. cbn [app find].
+    rewrite (hlt_neqb _ _ Hq). exact IH.
+  Qed.
+  Lemma vfind_all_gt (G : list elt) t : Forall (fun q => hlt t (snd q)) G -> vfind t G = None.
+  Proof.
+    induction 1 as [|q G Hq F IH]; [reflexivity|]. unfold vfind in *. cbn [find].
+    rewrite (hlt_neqb' _ _ Hq). exact IH.
+  Qed.
+
+  (** the search on a sorted vector *)
+  Lemma get_sorted (v : varied A) (other : hcoll) : vsorted (vr_resps v) ->
+    (exists L p G, vr_resps v = L ++ p :: G /\ snd p = other /\ vfind other (vr_resps v) = Some (fst p) /\
+                   vr_get v other = Ok (BOk (length L)))
+    \/ (exists L G, vr_resps v = L ++ G /\ vfind other (vr_resps v) = None /\
+                    Forall (fun q => hlt (snd q) other) L /\ Forall (fun q => hlt other (snd q)) G /\
+                    vr_get v other = Ok (BErr (length L))).
+  Proof.
+    intros S. unfold vr_get.
+    destruct (sorted_partition _ other S) as [(L & p & G & E & Ep & FL & FG) | (L & G & E & FL & FG)]; rewrite E.
+    - left. exists L, p, G. repeat split; try assumption.
+      + rewrite vfind_skip_lt by assumption. unfold vfind. cbn [find]. rewrite Ep, hc_eqb_refl. reflexivity.
+      + rewrite binary_search_by_unique; [reflexivity | apply Forall_lt_cmp; assumption | | apply Forall_gt_cmp; assumption].
+        rewrite Ep. apply (c_eq _ cmp_hcoll_ok). reflexivity.
+    - right. exists L, G. repeat split; try assumption.
+      + rewrite vfind_skip_lt by assumption. apply vfind_all_gt. assumption.
+      + rewrite binary_search_by_absent; [reflexivity | apply Forall_lt_cmp; assumption | apply Forall_gt_cmp; assumption].
+  Qed.
+
+  Lemma vec_insert_at (L G : list elt) x : vec_insert (length L) x (L ++ G) = Ok (L ++ x :: G).
+  Proof.
+    unfold vec_insert. rewrite app_length.
+    destruct (Nat.leb_spec (length L) (length L + length G)) as [_|Hc]; [|lia].
+    rewrite firstn_app, Nat.sub_diag, firstn_all. cbn [firstn]. rewrite app_nil_r.
+    rewrite skipn_app, Nat.sub_diag, skipn_all. reflexivity.
+  Qed.
+
+  Lemma insert_sorted (L G : list elt) f t :
+    vsorted (L ++ G) -> Forall (fun q => hlt (snd q) t) L -> Forall (fun q => hlt t (snd q)) G ->
+    vsorted (L ++ (f, t) :: G).
+  Proof.
+    unfold vsorted. intros S FL FG. apply ss_app in S as (SL & SG & FLG). apply ss_app. repeat split.
+    - exact SL.
+    - constructor; [exact SG | exact FG].
+    - rewrite Forall_forall in *. intros a Ha. constructor; [exact (FL _ Ha) | exact (FLG _ Ha)].
+  Qed.
+
+  Lemma vfind_insert (L G : list elt) f t t' :
+    Forall (fun q => hlt (snd q) t) L ->
+    vfind t' (L ++ (f, t) :: G) = if hc_eqb t t' then Some f else vfind t' (L ++ G).
+  Proof.
+    induction 1 as [|q L Hq F IH].
+    - unfold vfind. cbn [app find snd]. destruct (hc_eqb t t'); reflexivity.
+    - unfold vfind in *. cbn [app find].
+      destruct (hc_eqb (snd q) t') eqn:Eq.
+      + apply hc_eqb_eq in Eq. subst t'. rewrite (hlt_neqb' _ _ Hq). reflexivity.
+      + exact IH.
+  Qed.
+
+  Variable dbg : bool.
+
+  (** [get_by_request] on a sorted vector: the stored response whose header list equals the request's,
+      or the unique insertion position *)
+  Lemma get_by_request_sorted (v : varied A) r : vsorted (vr_resps v) ->
+    let t := headers_for_request (vr_refs v) r in
+    (exists f, vfind t (vr_resps v) = Some f /\ In (f, t) (vr_resps v) /\ vr_get_by_request v r = Ok (Hit (f, t)))
+    \/ (vfind t (vr_resps v) = None /\
+        exists L G, vr_resps v = L ++ G /\ vr_get_by_request v r = Ok (Miss (length L) t) /\
+                    Forall (fun q => hlt (snd q) t) L /\ Forall (fun q => hlt t (snd q)) G).
+  Proof.
+    intros S t. unfold vr_get_by_request. fold t.
+    destruct (get_sorted v t S) as [(L & p & G & E & Ep & Ef & Eg) | (L & G & E & Ef & FL & FG & Eg)]; rewrite Eg.
+    - left. exists (fst p). rewrite E at 3. rewrite nth_error_app2, Nat.sub_diag by lia. cbn [nth_error].
+      destruct p as [f hc]. cbn [fst snd] in *. subst hc. repeat split; try assumption.
+      rewrite E. apply in_elt.
+    - right. split; [exact Ef|]. exists L, G. repeat split; assumption.
+  Qed.
+
+  Lemma headers_for_request_length refs r : length (headers_for_request refs r) = length refs.
+  Proof. unfold headers_for_request. apply map_length. Qed.
+
+  Lemma push_at (v : varied A) (L G : list elt) f t :
+    vr_resps v = L ++ G -> length t = length (vr_refs v) ->
+    vr_push dbg v f (length L) t = Ok (mkVaried (vr_refs v) (L ++ (f, t) :: G), (f, t)).
+  Proof.
+    intros E El. unfold vr_push. rewrite El, Nat.eqb_refl, andb_false_r. rewrite E, vec_insert_at.
+    rewrite nth_error_app2, Nat.sub_diag by lia. reflexivity.
+  Qed.
+
+  Lemma vr_new_eq (f : A) r settings :
+    vr_new dbg f r settings = Ok (mkVaried settings [(f, headers_for_request settings r)]).
+  Proof.
+    unfold vr_new, vr_get_by_request, vr_get. cbn [vr_refs vr_resps binary_search_by length Nat.eqb].
+    unfold vr_push. cbn [vr_refs vr_resps]. rewrite headers_for_request_length, Nat.eqb_refl, andb_false_r.
+    reflexivity.
+  Qed.
+
+  (** whatever the vector looks like (sorted or not), a search only ever returns an element whose
+      header list *equals* the one searched for: the last comparison decides [Ok] *)
+  Lemma get_hit_exact (v : varied A) other i :
+    vr_get v other = Ok (BOk i) -> exists p, nth_error (vr_resps v) i = Some p /\ snd p = other.
+  Proof.
+    unfold vr_get, binary_search_by. destruct (Nat.eqb (length (vr_resps v)) 0); [discriminate|].
+    destruct (bs_loop _ _ _ _) as [base|]; [|discriminate].
+    destruct (nth_error (vr_resps v) base) as [x|] eqn:En; [|discriminate].
+    destruct (cmp_hcoll (snd x) other) eqn:C; intros H; inversion H; subst.
+    exists x. split; [exact En | apply (c_eq _ cmp_hcoll_ok); exact C].
+  Qed.
+  Lemma get_by_request_exact (v : varied A) r p :
+    vr_get_by_request v r = Ok (Hit p) -> In p (vr_resps v) /\ snd p = headers_for_request (vr_refs v) r.
+  Proof.
+    unfold vr_get_by_request. destruct (vr_get v _) as [[i|i]| |] eqn:G; try discriminate.
+    destruct (get_hit_exact _ _ _ G) as (q & En & Eq). rewrite En. intros H; inversion H; subst.
+    split; [eapply nth_error_In; eassumption | exact Eq].
+  Qed.
+
+  (** a search never panics and a reported insertion position is inside the vector *)
+  Lemma get_total (v : varied A) other : exists r, vr_get v other = Ok r.
+  Proof.
+    unfold vr_get. destruct (binary_search_by_total (fun pair : elt => cmp_hcoll (snd pair) other) (vr_resps v)) as [r ->].
+    eauto.
+  Qed.
+End Vec.
+
+(** ---- 3. defaults, the [vary] header ---- *)
+Lemma default_applied_absent ref r :
+  header_get (ru_name ref) r = None -> header_for ref r = (ru_name ref, ru_default ref).
+Proof. unfold header_for. intros ->. reflexivity. Qed.
+Lemma default_applied_nontext ref r v :
+  header_get (ru_name ref) r = Some v -> to_str_ok v = false -> header_for ref r = (ru_name ref, ru_default ref).
+Proof. unfold header_for. intros -> ->. reflexivity. Qed.
+Lemma transformed_when_text ref r v :
+  header_get (ru_name ref) r = Some v -> to_str_ok v = true -> header_for ref r = (ru_name ref, ru_xf ref v).
+Proof. unfold header_for. intros -> ->. reflexivity. Qed.
+
+Lemma header_for_name ref r : fst (header_for ref r) = ru_name ref.
+Proof. unfold header_for. destruct (header_get _ _) as [v|]; [destruct (to_str_ok v)|]; reflexivity. Qed.
+Lemma headers_for_request_names refs r : map fst (headers_for_request refs r) = map ru_name refs.
+Proof.
+  unfold headers_for_request. rewrite map_map. apply map_ext. intros ref. apply header_for_name.
+Qed.
+
+Lemma get_header_names (hc : hcoll) nr :
+  get_header hc nr = (if nr then B "accept-encoding" else B "accept-encoding, range")
+                     ++ concat (map (fun n => B ", " ++ n) (map fst hc)).
+Proof. unfold get_header. rewrite map_map. reflexivity. Qed.
+
+Lemma assoc_app_none k l1 l2 : assoc k l1 = None -> assoc k (l1 ++ l2) = assoc k l2.
+Proof.
+  induction l1 as [|[k' v] l1 IH]; cbn [assoc app]; [reflexivity|].
+  destruct (beq k k'); [discriminate | exact IH].
+Qed.
+Lemma assoc_filter_neq k l : assoc k (filter (fun p => negb (beq (fst p) k)) l) = None.
+Proof.
+  induction l as [|[k' v] l IH]; cbn [filter assoc fst]; [reflexivity|].
+  destruct (beq k' k) eqn:E; cbn [negb]; [exact IH|].
+  cbn [assoc]. destruct (beq k k') eqn:E2; [|exact IH].
+  apply beq_eq in E2. subst. rewrite beq_refl in E. discriminate.
+Qed.
+Lemma assoc_hm_insert n v hs : assoc n (hm_insert n v hs) = Some v.
+Proof.
+  unfold hm_insert. rewrite assoc_app_none by apply assoc_filter_neq. cbn [assoc]. rewrite beq_refl. reflexivity.
+Qed.
+Lemma filter_id_assoc_none n (hs : list (bytes * bytes)) :
+  assoc n hs = None -> filter (fun p => negb (beq (fst p) n)) hs = hs.
+Proof.
+  induction hs as [|[k v] hs IH]; cbn [assoc filter fst]; [reflexivity|].
+  destruct (beq n k) eqn:E; [discriminate|]. intros H.
+  destruct (beq k n) eqn:E2.
+  - apply beq_eq in E2. subst. rewrite beq_refl in E. discriminate.
+  - cbn [negb]. rewrite IH by exact H. reflexivity.
+Qed.
+
+(** what [apply_header] leaves in the response: a non-empty body carries exactly
+    [vary: accept-encoding, range, <rule names in rule order>]; an empty one is left alone *)
+Lemma apply_header_vary hs body refs r :
+  body <> [] ->
+  assoc (B "vary") (apply_header hs body (headers_for_request refs r) false)
+  = Some (B "accept-encoding, range" ++ concat (map (fun ru => B ", " ++ ru_name ru) refs)).
+Proof.
+  intros Hb. unfold apply_header. destruct body as [|b0 body]; [congruence|].
+  cbn [andb]. rewrite assoc_hm_insert, get_header_names, headers_for_request_names, map_map. reflexivity.
+Qed.
+Lemma apply_header_empty hs hc s : apply_header hs [] hc s = hs.
+Proof. reflexivity. Qed.
+
+(** ---- 4. the finite map under the entries ---- *)
+Section PC.
+  Context {E : Type}.
+  Lemma pc_find_remove k k' (c : pcache E) :
+    pc_find k (pc_remove k' c) = if key_eqb k k' then None else pc_find k c.
+  Proof.
+    induction c as [|[k0 e0] c IH]; cbn [pc_remove pc_find].
+    - destruct (key_eqb k k'); reflexivity.
+    - destruct (key_eqb k' k0) eqn:E0.
+      + rewrite IH. destruct (key_eqb k k') eqn:E1; [reflexivity|].
+        apply key_eqb_eq in E0. subst k0. rewrite E1. reflexivity.
+      + cbn [pc_find]. rewrite IH. destruct (key_eqb k k0) eqn:E2; [|reflexivity].
+        apply key_eqb_eq in E2. subst k0.
+        destruct (key_eqb k k') eqn:E1; [|reflexivity].
+        apply key_eqb_eq in E1. subst k'. rewrite key_eqb_refl in E0. discriminate.
+  Qed.
+  Lemma pc_find_insert k k' e (c : pcache E) :
+    pc_find k (pc_insert k' e c) = if key_eqb k k' then Some e else pc_find k c.
+  Proof.
+    unfold pc_insert. cbn [pc_find]. destruct (key_eqb k k') eqn:Ek; [reflexivity|].
+    rewrite pc_find_remove, Ek. reflexivity.
+  Qed.
+End PC.
+
+Definition kpath (k : key) : bytes := match k with KPath p => p | KPathQuery s i => firstn i s end.
+Lemma kpath_pq r : kpath (key_pq r) = rq_path r.
+Proof. unfold key_pq. pose proof (path_query_fst r) as H. destruct (path_query r) as [s i]. exact H. Qed.
+Lemma kpath_p r : kpath (key_p r) = rq_path r.
+Proof. reflexivity. Qed.
+Lemma kpath_insert_key r f : kpath (insert_key r f) = rq_path r.
+Proof. unfold insert_key. destruct (f_spref f =? SP_QUERY); [apply kpath_pq | apply kpath_p]. Qed.
+
+(** ---- 5. every history: the invariant, no panic, what is served ---- *)
+Section Histories.
+  Variable hstate : Type.
+  Variable compute : hstate -> request -> bool -> fat * hstate * list bytes.
+  Variable cache_on : bool.
+  Variable ims_on : bool.
+  Variable parse_ims : bytes -> option Z.
+  Variable sanitize_ok : request -> bool.
+  Variable prime : request -> request.
+  Variable negotiate : request -> fat -> option (N * bytes).
+  Variable rules_of : bytes -> list rule.
+  Variable dbg : bool.
+
+  Notation own := (own_tuple rules_of).
+  Notation finishX := (finishV negotiate).
+  Notation phase1 := (serveV_phase1 hstate cache_on ims_on parse_ims sanitize_ok prime negotiate).
+  Notation phase2 := (serveV_phase2 hstate compute cache_on ims_on negotiate rules_of dbg).
+  Notation serveX := (serveV hstate compute cache_on ims_on parse_ims sanitize_ok prime negotiate rules_of dbg).
+  Notation stepX := (stepV hstate compute cache_on ims_on parse_ims sanitize_ok prime negotiate rules_of dbg).
+  Notation runX := (runV hstate compute cache_on ims_on parse_ims sanitize_ok prime negotiate rules_of dbg).
+  Notation run_stateX := (runV_state hstate compute cache_on ims_on parse_ims sanitize_ok prime negotiate rules_of dbg).
+
+  (** [f] is a response the layer below produced for request [r1] *)
+  Definition computed (f : fat) (r1 : request) : Prop := exists hs1 ok1, fst (fst (compute hs1 r1 ok1)) = f.
+
+  Definition entry_okV (k : key) (e : ventry) : Prop :=
+    vsorted (vr_resps (ve_var e)) /\ vr_resps (ve_var e) <> [] /\ vr_refs (ve_var e) = rules_of (kpath k) /\
+    forall f hc, In (f, hc) (vr_resps (ve_var e)) ->
+      exists r1, computed f r1 /\ rq_path r1 = kpath k /\ hc = headers_for_request (rules_of (kpath k)) r1.
+  Definition InvV (c : vcache) : Prop := forall k e, pc_find k c = Some e -> entry_okV k e.
+
+  Lemma InvV_nil : InvV [].
+  Proof. intros k e H. discriminate. Qed.
+  Lemma InvV_remove k c : InvV c -> InvV (pc_remove k c).
+  Proof. intros H k0 e0. rewrite pc_find_remove. destruct (key_eqb k0 k); [discriminate | apply H]. Qed.
+  Lemma InvV_insert k e c : InvV c -> entry_okV k e -> InvV (pc_insert k e c).
+  Proof.
+    intros H He k0 e0. rewrite pc_find_insert. destruct (key_eqb k0 k) eqn:Ek.
+    - intros H0; inversion H0; subst. apply key_eqb_eq in Ek. subst. exact He.
+    - apply H.
+  Qed.
+
+  Lemma vget_item_inv k c now res c' :
+    vget_item k c now = (res, c') -> InvV c -> InvV c' /\ (forall e, res = Some e -> entry_okV k e).
+  Proof.
+    unfold vget_item. destruct (pc_find k c) as [e|] eqn:F.
+    - destruct (vfresh e now); intros H I; inversion H; subst.
+      + split; [exact I|]. intros e0 H0; inversion H0; subst. apply (I _ _ F).
+      + split; [apply InvV_remove; exact I | discriminate].
+    - intros H I; inversion H; subst. split; [exact I | discriminate].
+  Qed.
+  Lemma vlookup_inv r c now k res c' :
+    vlookup r c now = ((k, res), c') -> InvV c ->
+    InvV c' /\ kpath k = rq_path r /\ (forall e, res = Some e -> entry_okV k e).
+  Proof.
+    unfold vlookup. destruct (vget_item (key_pq r) c now) as [[e|] c1] eqn:G1.
+    - intros H I; inversion H; subst. destruct (vget_item_inv _ _ _ _ _ G1 I) as [I1 E1].
+      split; [exact I1|]. split; [apply kpath_pq | exact E1].
+    - destruct (vget_item (key_p r) c1 now) as [res2 c2] eqn:G2.
+      intros H I; inversion H; subst.
+      destruct (vget_item_inv _ _ _ _ _ G1 I) as [I1 _].
+      destruct (vget_item_inv _ _ _ _ _ G2 I1) as [I2 E2].
+      split; [exact I2|]. split; [apply kpath_p | exact E2].
+  Qed.
+  Lemma vrelookup_inv k c now k' res c' :
+    vrelookup k c now = ((k', res), c') -> InvV c ->
+    InvV c' /\ kpath k' = kpath k /\ (forall e, res = Some e -> entry_okV k' e).
+  Proof.
+    unfold vrelookup. destruct (vget_item k c now) as [[e|] c1] eqn:G1.
+    - intros H I; inversion H; subst. destruct (vget_item_inv _ _ _ _ _ G1 I) as [I1 E1]. auto.
+    - destruct (vget_item_inv _ _ _ _ _ G1 I) as [I1 _] || idtac.
+      destruct k as [p|s i].
+      + intros H I; inversion H; subst. destruct (vget_item_inv _ _ _ _ _ G1 I) as [I1 _].
+        split; [exact I1|]. split; [reflexivity | discriminate].
+      + destruct (vget_item (KPath (firstn i s)) c1 now) as [res2 c2] eqn:G2.
+        intros H I; inversion H; subst.
+        destruct (vget_item_inv _ _ _ _ _ G1 I) as [I1 _].
+        destruct (vget_item_inv _ _ _ _ _ G2 I1) as [I2 E2].
+        split; [exact I2|]. split; [reflexivity | exact E2].
+  Qed.
+
+  Lemma computed_by hs r ok f hs' lg : compute hs r ok = (f, hs', lg) -> computed f r.
+  Proof. intros H. exists hs, ok. rewrite H. reflexivity. Qed.
+
+  (** what a request that ran the handler gets: the response computed for itself, labelled with its own
+      transformed header list *)
+  Definition own_reply (r : request) (rp : reply) : Prop :=
+    exists f lm cached, computed f r /\ rp = finishX r f (own r) lm cached.
+
+  Lemma new_and_cache_ok c1 hs' now r f lg lm_of cached :
+    InvV c1 -> computed f r ->
+    exists st' rp, new_and_cache hstate cache_on negotiate rules_of dbg c1 hs' now r f lg lm_of cached = Ok (st', rp, lg, [r])
+                   /\ InvV (fst st') /\ snd st' = hs' /\ rp = finishX r f (own r) (lm_of f) cached.
+  Proof.
+    intros I Cf. unfold new_and_cache. rewrite vr_new_eq. cbn [vr_first vr_resps].
+    destruct (may_store cache_on (rq_method r) f).
+    - eexists; eexists. split; [reflexivity|]. cbn [fst snd]. split; [|split; reflexivity].
+      apply InvV_insert; [exact I|]. unfold entry_okV. cbn [ve_var vr_resps vr_refs]. rewrite kpath_insert_key.
+      split; [|split; [|split]].
+      + constructor; constructor.
+      + discriminate.
+      + reflexivity.
+      + intros f0 hc [Eq|[]]. inversion Eq; subst. exists r. split; [exact Cf | split; reflexivity].
+    - eexists; eexists. split; [reflexivity|]. cbn [fst snd]. split; [exact I | split; reflexivity].
+  Qed.
+
+  Lemma missV_ok c1 hs now r ok :
+    InvV c1 ->
+    exists st' rp lg, missV hstate compute cache_on ims_on negotiate rules_of dbg c1 hs now r ok = Ok (st', rp, lg, [r])
+                      /\ InvV (fst st') /\ own_reply r rp
+                      /\ snd st' = snd (fst (compute hs r ok)) /\ lg = snd (compute hs r ok).
+  Proof.
+    intros I. unfold missV. destruct (compute hs r ok) as [[f hs'] lg] eqn:C.
+    destruct (new_and_cache_ok c1 hs' now r f lg (fun f0 => ims_on && wants_cache cache_on (rq_method r) f0) false I
+                (computed_by _ _ _ _ _ _ C)) as (st' & rp & E & I' & Es & Er).
+    exists st', rp, lg. rewrite E. cbn [fst snd]. split; [reflexivity|]. split; [exact I'|]. split; [|split; [exact Es | reflexivity]].
+    exists f, (ims_on && wants_cache cache_on (rq_method r) f), false. split; [eapply computed_by; eassumption | exact Er].
+  Qed.
+
+  (** the suspended half of a request is consistent with *some* earlier cache *)
+  Definition parked_ok (p : parked) : Prop :=
+    match p with
+    | PkMiss r ok => True
+    | PkVary r ok k position headers => kpath k = rq_path r /\ headers = own r
+    end.
+  Definition parked_req (p : parked) : request := match p with PkMiss r _ => r | PkVary r _ _ _ _ => r end.
+  Definition parked_flag (p : parked) : bool := match p with PkMiss _ ok => ok | PkVary _ ok _ _ _ => ok end.
+
+  (** [stale_position_safe] (repaired code): phase 2 of a request may run against *any* cache that
+      satisfies the invariant — not the one its phase 1 saw —: it does not panic, keeps every vector
+      sorted, and answers with the response computed for this very request. *)
+  Lemma phase2_ok c hs now p :
+    InvV c -> parked_ok p ->
+    exists st' rp lg, phase2 c hs now p = Ok (st', rp, lg, [parked_req p])
+                      /\ InvV (fst st') /\ own_reply (parked_req p) rp
+                      /\ snd st' = snd (fst (compute hs (parked_req p) (parked_flag p)))
+                      /\ lg = snd (compute hs (parked_req p) (parked_flag p)).
+  Proof.
+    intros I Hp. destruct p as [r ok | r ok k position headers]; cbn [serveV_phase2 parked_req parked_flag].
+    - apply missV_ok. exact I.
+    - destruct Hp as [Hk Hh]. unfold vary_missing.
+      destruct (compute hs r ok) as [[f hs'] lg] eqn:C. cbn [fst snd].
+      pose proof (computed_by _ _ _ _ _ _ C) as Cf.
+      destruct (vrelookup k c now) as [[k' found'] c2] eqn:L.
+      destruct (vrelookup_inv _ _ _ _ _ _ L I) as (I2 & Hk' & Hf).
+      destruct found' as [e'|].
+      + destruct (Hf e' eq_refl) as (S & Hne & Hrefs & Hall).
+        assert (Hp' : kpath k' = rq_path r) by congruence.
+        destruct (get_by_request_sorted (ve_var e') r S) as [(f0 & _ & _ & Eg) | (_ & LL & G & El & Eg & FL & FG)]; rewrite Eg.
+        * exists (c2, hs'), (finishX r f headers ims_on true), lg. cbn [fst snd].
+          split; [reflexivity|]. split; [exact I2|]. split; [|split; reflexivity].
+          exists f, ims_on, true. subst headers. split; [exact Cf | reflexivity].
+        * rewrite (push_at dbg (ve_var e') LL G f _ El) by apply headers_for_request_length.
+          eexists; eexists; exists lg. split; [reflexivity|]. cbn [fst snd]. split; [|split; [|split; reflexivity]].
+          -- apply InvV_insert; [exact I2|]. unfold entry_okV. cbn [ve_var vr_resps vr_refs].
+             split; [|split; [|split]].
+             ++ apply insert_sorted; [rewrite <- El; exact S | exact FL | exact FG].
+             ++ destruct LL; discriminate.
+             ++ exact Hrefs.
+             ++ intros f1 hc Hin. apply in_app_or in Hin. destruct Hin as [Hin | [Eq | Hin]].
+                ** apply Hall. rewrite El. apply in_or_app. left. exact Hin.
+                ** inversion Eq; subst f1 hc. exists r. rewrite Hrefs, Hp'. split; [exact Cf | split; reflexivity].
+                ** apply Hall. rewrite El. apply in_or_app. right. exact Hin.
+          -- exists f, ims_on, true. split; [exact Cf|]. rewrite Hrefs, Hp'. reflexivity.
+      + destruct (new_and_cache_ok c2 hs' now r f lg (fun _ => ims_on) true I2 Cf) as (st' & rp & E & I' & Es & Er).
+        exists st', rp, lg. rewrite E. split; [reflexivity|]. split; [exact I'|]. split; [|split; [exact Es | reflexivity]].
+        exists f, ims_on, true. split; [exact Cf | exact Er].
+  Qed.
+
+  (** a reply served from the cache: 304, or a stored response that was computed for a request with the
+      same path and an *equal* transformed header list *)
+  Definition cached_reply (r : request) (rp : reply) : Prop :=
+    (rp_status rp = 304 /\ rp_body rp = [] /\ rp_headers rp = [])
+    \/ exists f r1, computed f r1 /\ rq_path r1 = rq_path r /\ own r1 = own r /\ rp = finishX r f (own r) ims_on true.
+
+  Lemma phase1_ok c hs now r0 :
+    InvV c ->
+    (exists c1 rp, phase1 (c, hs) now r0 = Ok (inl ((c1, hs), rp, [], [])) /\ InvV c1 /\ cached_reply (prime r0) rp)
+    \/ (exists c1 p, phase1 (c, hs) now r0 = Ok (inr (c1, p)) /\ InvV c1 /\ parked_ok p /\
+                     parked_req p = prime r0 /\ parked_flag p = sanitize_ok r0).
+  Proof.
+    intros I. unfold serveV_phase1. set (r := prime r0). set (ok := sanitize_ok r0).
+    destruct cache_on; cbn [negb].
+    2:{ right. exists c, (PkMiss r ok). split; [reflexivity|]. split; [exact I|]. cbn. auto. }
+    destruct (vlookup r c now) as [[k found0] c1] eqn:L.
+    destruct (vlookup_inv _ _ _ _ _ _ L I) as (I1 & Hk & Hf).
+    destruct found0 as [e|].
+    2:{ right. exists c1, (PkMiss r ok). split; [reflexivity|]. split; [exact I1|]. cbn. auto. }
+    destruct (ok && get_or_head (rq_method r)).
+    2:{ right. exists c1, (PkMiss r ok). split; [reflexivity|]. split; [exact I1|]. cbn. auto. }
+    destruct (match (if ims_on then match header (B "if-modified-since") r with Some v => parse_ims v | None => None end else None)
+              with Some t => ims_fresh t (ve_created e) | None => false end).
+    { left. eexists; eexists. split; [reflexivity|]. split; [exact I1|]. left. cbn. auto. }
+    destruct (Hf e eq_refl) as (S & Hne & Hrefs & Hall).
+    destruct (get_by_request_sorted (ve_var e) r S) as [(f0 & _ & Hin & Eg) | (_ & LL & G & El & Eg & FL & FG)]; rewrite Eg.
+    - left. eexists; eexists. split; [reflexivity|]. split; [exact I1|]. right.
+      destruct (Hall _ _ Hin) as (r1 & C1 & P1 & T1).
+      exists f0, r1. rewrite Hrefs, Hk in *. split; [exact C1|]. split; [exact P1|].
+      assert (Ho : own r1 = own r) by (unfold own_tuple; rewrite P1; symmetry; exact T1).
+      split; [exact Ho | reflexivity].
+    - right. exists c1, (PkVary r ok k (length LL) (headers_for_request (vr_refs (ve_var e)) r)).
+      split; [reflexivity|]. split; [exact I1|]. cbn [parked_ok parked_req parked_flag].
+      split; [|split; reflexivity]. split; [exact Hk|]. rewrite Hrefs, Hk. reflexivity.
+  Qed.
+
+  (** one request, nothing in between *)
+  Definition served_ok (r : request) (rp : reply) (calls : list request) : Prop :=
+    (calls = [] /\ cached_reply r rp) \/ (calls = [r] /\ own_reply r rp).
+
+  Lemma serveV_ok c hs now r0 :
+    InvV c ->
+    exists st' rp lg calls, serveX (c, hs) now r0 = Ok (st', rp, lg, calls) /\ InvV (fst st') /\ served_ok (prime r0) rp calls.
+  Proof.
+    intros I. unfold serveV.
+    destruct (phase1_ok c hs now r0 I) as [(c1 & rp & E & I1 & Hc) | (c1 & p & E & I1 & Hp & Hr & _)]; rewrite E.
+    - exists (c1, hs), rp, [], []. split; [reflexivity|]. split; [exact I1 | left; split; [reflexivity | exact Hc]].
+    - cbn [snd]. destruct (phase2_ok c1 hs now p I1 Hp) as (st' & rp & lg & E2 & I2 & Ho & _).
+      exists st', rp, lg, [parked_req p]. rewrite E2, Hr in *. split; [reflexivity|]. split; [exact I2 | right; split; [reflexivity | exact Ho]].
+  Qed.
+
+  Lemma stepV_ok c hs now o :
+    InvV c ->
+    exists st' now' ob calls, stepX (c, hs) now o = Ok (st', now', ob, calls) /\ InvV (fst st') /\
+      match o, ob with
+      | OReq r0, ObReply rp _ => served_ok (prime r0) rp calls
+      | OReq _, _ => False
+      | _, _ => calls = []
+      end.
+  Proof.
+    intros I. destruct o as [r | r | | ms]; cbn [stepV].
+    - destruct (serveV_ok c hs now r I) as (st' & rp & lg & calls & E & I' & Hs). rewrite E.
+      exists st', now, (ObReply rp lg), calls. split; [reflexivity|]. split; assumption.
+    - eexists; eexists; eexists; eexists. split; [reflexivity|]. cbn [fst]. split; [|reflexivity].
+      unfold vclear_page. apply InvV_remove, InvV_remove, I.
+    - eexists; eexists; eexists; eexists. split; [reflexivity|]. cbn [fst]. split; [apply InvV_nil | reflexivity].
+    - eexists; eexists; eexists; eexists. split; [reflexivity|]. cbn [fst]. split; [exact I | reflexivity].
+  Qed.
+
+  (** every observation of a history *)
+  Definition obs_ok (o : op) (oc : obs * list request) : Prop :=
+    match o, fst oc with
+    | OReq r0, ObReply rp _ => served_ok (prime r0) rp (snd oc)
+    | OReq _, _ => False
+    | _, _ => snd oc = []
+    end.
+
+  Lemma runV_ok ops : forall c hs now,
+    InvV c ->
+    exists l st' now', runX (c, hs) now ops = Ok l /\ run_stateX (c, hs) now ops = Ok (st', now') /\
+                       InvV (fst st') /\ Forall2 obs_ok ops l.
+  Proof.
+    induction ops as [|o ops IH]; intros c hs now I; cbn [runV runV_state].
+    - exists [], (c, hs), now. split; [reflexivity|]. split; [reflexivity|]. split; [exact I | constructor].
+    - destruct (stepV_ok c hs now o I) as ([c' hs'] & now' & ob & calls & E & I' & Ho). rewrite E.
+      destruct (IH c' hs' now' I') as (l & st'' & now'' & E1 & E2 & I'' & F). rewrite E1, E2.
+      exists ((ob, calls) :: l), st'', now''. split; [reflexivity|]. split; [reflexivity|]. split; [exact I''|].
+      constructor; [|exact F]. unfold obs_ok. cbn [fst snd]. exact Ho.
+  Qed.
+End Histories.
